@@ -119,6 +119,27 @@ def _query_text(stages, root="ds"):
 # single edits
 
 
+def _lookalikes(s):
+    """strings different from s that a text normalisation (NFKC / NFC / NFD / case folding) would map to the same text"""
+    import unicodedata
+
+    out = []
+    for form in ("NFKC", "NFC", "NFD", "NFKD"):
+        t = unicodedata.normalize(form, s)
+        if t != s:
+            out.append(t)
+    for i, c in enumerate(s):
+        if c.isascii() and c.isalnum():
+            out.append(s[:i] + chr(ord(c) + 0xFEE0) + s[i + 1:])  # full-width form of the first ASCII letter/digit
+            break
+    if "fi" in s:
+        out.append(s.replace("fi", "\ufb01", 1))
+    if "e" in s:
+        out.append(s.replace("e", "e\u0301", 1).replace("e\u0301", "\u00e9", 1) if False else s.replace("e", "\u00e9", 1))
+        out.append(s.replace("e", "e\u0301", 1))
+    return [t for t in dict.fromkeys(out) if t != s]
+
+
 def edits(tree):
     """yield (description, mutated deep copy) for every single edit of the tree"""
     nodes = list(ast.walk(tree))
@@ -131,8 +152,12 @@ def edits(tree):
 
         if isinstance(n, ast.Name):
             yield mut(lambda m, t: setattr(m, "id", m.id + "_x"), "rename-name")
+            for la in _lookalikes(n.id)[:2]:  # hand-built identifiers need not be normalised
+                yield mut(lambda m, t, la=la: setattr(m, "id", la), "lookalike-name")
         if isinstance(n, ast.Attribute):
             yield mut(lambda m, t: setattr(m, "attr", m.attr + "_x"), "rename-attr")
+            for la in _lookalikes(n.attr)[:2]:
+                yield mut(lambda m, t, la=la: setattr(m, "attr", la), "lookalike-attr")
         if isinstance(n, ast.arg):
             yield mut(lambda m, t: setattr(m, "arg", m.arg + "_x"), "rename-param")
         if isinstance(n, ast.keyword):
@@ -147,7 +172,9 @@ def edits(tree):
             elif isinstance(v, float):
                 alts = [v + 1.0 if v + 1.0 != v else v / 2 + 1, str(v), -v]
             elif isinstance(v, str):
-                alts = [v + "x", v.encode("utf-8"), v + " ", v.upper() if v.upper() != v else v + "U"]
+                alts = [v + "x", v.encode("utf-8"), v + " ", v.upper() if v.upper() != v else v + "U"] + _lookalikes(v)
+                if "\u00e9" in v or "e\u0301" in v:  # composed vs decomposed form of the same letter
+                    alts.append(v.replace("\u00e9", "e\u0301") if "\u00e9" in v else v.replace("e\u0301", "\u00e9"))
             elif isinstance(v, bytes):
                 alts = [v + b"x", v.decode("latin-1")]
             for a in alts:
